@@ -1,7 +1,7 @@
 from common import T_COMMON
 
 CFG = dict(
-    theorems=["readObj_ranges_sum", "obj_resave_faces", "readObj_corners", "obj_roundtrip_struct",
+    theorems=["readObj_ranges_sum", "obj_resave_faces", "readObj_corners", "readObj_normals_complete", "obj_roundtrip_struct",
               "obj_roundtrip_carry", "obj_roundtrip", "readObj_transport", "obj_roundtrip_text", "obj_shared_offset_breaks"],
     streams=[dict(name="c05", n=dict(quick=300, thorough=10000))],
     trusted=T_COMMON + [
